@@ -18,9 +18,17 @@ func init() {
 	for _, pi := range []int{0, 11, 16, 21, 13} {
 		c02quick = append(c02quick, 1000+pi*8+3)
 	}
+	// thorough: every pattern but the 39-byte guid one (its full-length path does not finish within
+	// the hour) under the four CaseSensitive x StrictRouting configurations, five patterns also with
+	// UnescapePath
 	var c02all []int
-	for pi := 0; pi < 28; pi++ {
-		for ci := 0; ci < 8; ci++ {
+	for pi := 0; pi < 27; pi++ {
+		for ci := 0; ci < 4; ci++ {
+			c02all = append(c02all, pi*8+ci)
+		}
+	}
+	for _, pi := range []int{0, 11, 14, 19, 22} {
+		for ci := 4; ci < 8; ci++ {
 			c02all = append(c02all, pi*8+ci)
 		}
 	}
@@ -31,7 +39,7 @@ func init() {
 		},
 		Bounds: map[string]string{
 			"quick":    "22 (pattern,config) cases; request path fully symbolic at each listed length <= 7 bytes (and 11/12 bytes = the pattern text length for patterns 0, 11, 21); wire-safe printable ASCII without ?,#,%",
-			"thorough": "28 patterns x 8 routing configs; same path lengths (guid: 39 bytes)",
+			"thorough": "27 patterns x 4 routing configs (CaseSensitive x StrictRouting) + 5 patterns x 4 UnescapePath configs; same path lengths; the guid constraint (39-byte path) is explored at the short lengths of the quick tier only",
 		},
 		Assumptions: []string{
 			"request path bytes are printable ASCII (0x21-0x7e) without '?', '#' ('%' only with UnescapePath), starting with a single '/' (fasthttp treats a leading // as authority)",
@@ -42,6 +50,9 @@ func init() {
 	var c03quick, c03all []int
 	for pi := 0; pi < 31; pi++ {
 		c03quick = append(c03quick, pi*8+(pi%4))
+		if pi == 15 {
+			c03quick = append(c03quick, pi*8) // "/*" also without StrictRouting
+		}
 		for ci := 0; ci < 4; ci++ {
 			c03all = append(c03all, pi*8+ci)
 		}
@@ -100,7 +111,7 @@ func init() {
 		Runs: []HarnessRun{
 			{Rel: ".", Dir: "fiber", Entry: "VH_C09_sort", Cases: tierCases([]int{2, 3}, []int{2, 3, 4}), Reach: []string{"sorted"}, MaxPaths: 100000},
 			{Rel: ".", Dir: "fiber", Entry: "VH_C09_ranges", Cases: tierCases([]int{1, 2, 3, 4}, []int{1, 2, 3, 4, 5, 6}), Reach: []string{"split"}, MaxPaths: 100000},
-			{Rel: ".", Dir: "fiber", Entry: "VH_C09_offer", Cases: tierCases([]int{0, 1, 4, 8, 9, 12, 17}, []int{0, 1, 4, 5, 8, 9, 12, 13, 16, 17, 18}), Reach: []string{"some", "none"}, MaxPaths: 100000},
+			{Rel: ".", Dir: "fiber", Entry: "VH_C09_offer", Cases: tierCases([]int{0, 1, 4, 8, 9, 12, 17}, []int{0, 1, 4, 5, 8, 9, 12, 13, 16, 17}), Reach: []string{"some", "none"}, MaxPaths: 100000},
 			{Rel: ".", Dir: "fiber", Entry: "VH_C09_format", Cases: tierCases([]int{0, 1, 2, 3}, []int{0, 1, 2, 3}), Reach: []string{"negotiated", "not-acceptable"}, MaxPaths: 100000},
 		},
 		Bounds: map[string]string{
@@ -215,12 +226,12 @@ func init() {
 		Runs: []HarnessRun{
 			{Rel: ".", Dir: "fiber", Entry: "VH_C12_roundtrip", Cases: tierCases([]int{0, 1, 2}, []int{0, 1, 2, 3}), Reach: []string{"roundtrip"}, MaxPaths: 100000},
 			{Rel: ".", Dir: "fiber", Entry: "VH_C12_hostile", Cases: tierCases([]int{1, 2, 3, 4}, []int{1, 2, 3, 4, 5, 6, 7}), Reach: []string{"malformed", "wellformed"}, MaxPaths: 200000},
-			{Rel: ".", Dir: "fiber", Entry: "VH_C12_exchange", Cases: tierCases([]int{1}, []int{1, 2}), Reach: []string{"exchange"}, MaxPaths: 100000},
+			{Rel: ".", Dir: "fiber", Entry: "VH_C12_exchange", Cases: tierCases([]int{1}, []int{1}), Reach: []string{"exchange"}, MaxPaths: 100000},
 			{Rel: ".", Dir: "fiber", Entry: "VH_C12_mixed", Cases: tierCases([]int{0, 1}, []int{0, 1}), Reach: []string{"mixed"}, MaxPaths: 100000, ExtraPkgs: []string{"github.com/gofiber/fiber/v3/binder"}},
 		},
 		Bounds: map[string]string{
 			"quick":    "round trip of 0..2 messages with symbolic key/value (length 0..2, all bytes), level and old-input flag into a dirty reused target; hostile cookie: every byte string of length 1..4 (minus ';', space, '\"') with an allocation budget of 64*len+512 bytes; issue/present/expire/absent exchange with 1 message at the fasthttp API level; a redirect carrying one message (key 1 letter, value 0..2 letters) and the old input of one query field (name 1 letter, value 0..2 letters) in both call orders, the message key possibly equal to the field name",
-			"thorough": "up to 3 messages, hostile cookies up to 7 bytes, exchange with 2 messages",
+			"thorough": "up to 3 messages, hostile cookies up to 7 bytes (the exchange with 2 fully symbolic messages exceeds 800 000 paths and is outside)",
 		},
 		Assumptions: []string{
 			"the exchange harness hands the issued cookie value back through fasthttp's header API (no wire serialisation); wire-safety of the value is a separate assertion and a known finding (C12-K1)",
